@@ -145,7 +145,7 @@ func renderLine(args [][]byte) []byte {
 
 func gen(w *bufio.Writer, n int) {
 	r := hx.NewRand(hx.SeedFromEnv())
-	words := []string{"a", "b=1", "--k=v", "-x=y", "--", "$0=z", "k=", "=v", "a=b=c", "pos", "\xc3\xa9", "--flag", "-", "k=v w"}
+	words := []string{"a", "b=1", "--k=v", "-x=y", "--", "$0=z", "k=", "=v", "a=b=c", "pos", "\xc3\xa9", "--flag", "-", "k=v w", "", "", " "}
 	for i := 0; i < n; i++ {
 		switch r.Intn(4) {
 		case 0: // long random input over the significant alphabet (+ arbitrary bytes)
@@ -374,6 +374,9 @@ func oracle(w *bufio.Writer, n int) {
 					exp[key] = val
 				} else {
 					v := "p" + strconv.Itoa(j)
+					if r.Chance(1, 4) {
+						v = "" // an empty positional argument (a quoted "") still takes its number
+					}
 					args = append(args, v)
 					exp["$"+strconv.Itoa(pos)] = v
 					pos++
